@@ -112,6 +112,9 @@ def w_wiring(F, X, rep, b, fn, rid="C19-W"):
     for adt, field, opt, width, wrappers in [w for w in WIRING for _ in range(1)]:
       for (bi, s, d) in aggs.get(adt + "#all", []):
         e = d.get(field)
+        if e is not None:
+            import model_msgs as mm
+            e = mm.inline_pure(F, X, e, keep=lambda n: n.startswith("cln_plugin::") or n.startswith("<cln_plugin::"))
         name, wr, probs = analyse_chain(e) if e is not None else (None, [], ["field missing"])
         ok = name == opt and not probs
         rep.ob(rid, ok, fn, "%s.%s <- option %s" % (adt.split("::")[-1], field, opt), where=loc(s["sp"]), how="%s via %s" % (name, wr),
